@@ -4,5 +4,8 @@
 id=$1; shift
 if [ -n "$(git -C /repo status --porcelain)" ]; then echo "seedtest: /repo has uncommitted changes; commit first"; exit 2; fi
 git -C /repo apply /verif/seeded/$id/patch.diff || exit 1
+# evidence written while the seed is applied describes a mutated tree: keep the committed files
+ev=$(mktemp -d); cp -a /verif/evidence/. $ev/
 for p in "$@"; do /verif/bin/check $p 2>&1 | cut -c1-330 | tail -6; done
 git -C /repo checkout -- .
+cp -a $ev/. /verif/evidence/; rm -rf $ev
